@@ -1581,6 +1581,19 @@ func NewVM
   props C07 C06 C01
   inline
 
+// GetCurSeed reports the CURRENT state of the generator the context draws from: the bytes come from marshalling
+// ctx.RandSrc (the shared fallback source only when the context has none) — not the initial seed, not a copy taken
+// earlier (C06: a captured state resumes the sequence where it was captured).
+func (*Context).GetCurSeed
+  props C06 C01
+  requires ctx != nil
+  ghost var fromCtx int = 0
+  ghost var fromShared int = 0
+  ghost at precall 1 MarshalBinary: fromCtx = fromCtx + 1
+  ghost at precall 1 randSource.MarshalBinary: fromShared = fromShared + 1
+  ensures [C06] old(ctx.RandSrc) != nil ==> fromCtx == 1 && fromShared == 0
+  ensures [C06] old(ctx.RandSrc) == nil ==> fromCtx == 0 && fromShared == 1
+
 // Init: a context that carries seed bytes gets a NEW generator built from them, whatever generator it had before
 // (re-seeding a used context must restart the sequence: C06); without seed bytes the generator is left alone.
 func (*Context).Init
